@@ -191,7 +191,18 @@ def run(chk):
                     tgroups.append((len(cases), srcs))
                     for s_ in srcs:
                         cases.append(evalsrc_case(s_, binds=[("oa", va), ("ob", vb_)], ufuncs=[]))
-    for t in TEMPLATES_CLOCK:
+    for srcs in [["coalesce({{'a': 1}['b']: 1}, 5)", "coalesce({m1['b']: 1}, 5)", "coalesce({{'a': 1}[sb]: 1}, 5)"],
+                 ["has({{'a': 1}['b']: 1})", "has({m1['b']: 1})", "has({{'a': 1}[sb]: 1})"],
+                 ["has({1 / 0: 1})", "has({1 / i0: 1})", "has({i1 / 0: 1})"],
+                 ["coalesce({1 / 0: 1}, 2)", "coalesce({1 / i0: 1}, 2)"],
+                 ["[{1 / 0: 1}].map(e, has(e))", "[{1 / i0: 1}].map(e, has(e))"],
+                 ["has({'k': {'a': 1}['b']})", "has({'k': m1['b']})"],
+                 ["coalesce({'k': {'a': 1}['b']}, 5)", "coalesce({'k': m1['b']}, 5)"],
+                 ["has([{'a': 1}['b']])", "has([m1['b']])"], ["coalesce([{'a': 1}['b']][0], 5)", "coalesce([m1['b']][0], 5)"],
+                 ["has({zz: 1})", "has({zz: i1})"]]:
+        tgroups.append((len(cases), srcs))
+        for s_ in srcs:
+            cases.append(evalsrc_case(s_, binds=[("m1", vmap([("a", vi(1))])), ("sb", vs("b")), ("i0", vi(0)), ("i1", vi(1))], ufuncs=[]))
         srcs = [t.replace("N", "tv9"), t.replace("N", "now()"), t.replace("N", "timestamp()")]
         if "getFullYear" not in t:
             srcs.append(t.replace("N", "timestamp(null)"))
